@@ -198,10 +198,14 @@ type built struct {
 	// different contexts overlap
 	contexts     int
 	slowSelectUs int
+	// abandoned: before the calls run, this many earlier calls on the same batching contexts
+	// were made with a context that is already cancelled (a request part that was given up);
+	// what they return does not matter, the calls that follow must not notice them
+	abandoned int
 }
 
 func gen(t *rapid.T) built {
-	b := built{table: rapid.SampledFrom(sw.Tables).Draw(t, "table"), contexts: rapid.SampledFrom([]int{1, 1, 2, 3}).Draw(t, "contexts"), slowSelectUs: rapid.SampledFrom([]int{0, 0, 300, 1500}).Draw(t, "slowselect")}
+	b := built{table: rapid.SampledFrom(sw.Tables).Draw(t, "table"), contexts: rapid.SampledFrom([]int{1, 1, 2, 3}).Draw(t, "contexts"), slowSelectUs: rapid.SampledFrom([]int{0, 0, 300, 1500}).Draw(t, "slowselect"), abandoned: rapid.SampledFrom([]int{0, 0, 0, 1, 3}).Draw(t, "abandoned")}
 	n := rapid.IntRange(0, 12).Draw(t, "nrows")
 	for i := 0; i < n; i++ {
 		b.rows = append(b.rows, sw.GenRow(t, b.table, i+1))
@@ -333,6 +337,25 @@ func check(b built) (nt bool, labels []string, sig string, err error) {
 		d := time.Duration(b.slowSelectUs) * time.Microsecond
 		eng.SetSelectHooks(func() { time.Sleep(d) }, nil)
 		defer eng.SetSelectHooks(nil, nil)
+	}
+	for k := 0; k < b.abandoned && len(b.calls) > 0; k++ {
+		c := b.calls[k%len(b.calls)]
+		if c.options != nil {
+			continue
+		}
+		dead, cancel := context.WithCancel(bctxs[k%len(bctxs)])
+		cancel()
+		fin := make(chan struct{})
+		go func() {
+			defer close(fin)
+			defer func() { recover() }()
+			runCall(dead, db, b.table, c)
+		}()
+		select {
+		case <-fin:
+		case <-time.After(10 * time.Second):
+			return false, nil, "hang", fmt.Errorf("a call on a cancelled context did not return within 10s")
+		}
 	}
 	batched := make([]outcome, len(b.calls))
 	var wg sync.WaitGroup
